@@ -108,7 +108,9 @@ fn main()
         }
     }
     placed_stream(&mut out, &mut rng);
+    for t in long_loop_terms(&mut rng).iter() { emit_fs(&mut out, t); }
     layout_stream(&mut out, &mut rng);
+    wide_register_stream(&mut out, &mut rng);
     let n = out.finish();
     eprintln!("c05: {} cases", n);
 }
@@ -347,6 +349,157 @@ fn placed_stream(out: &mut Out, rng: &mut SplitMix64)
 }
 
 // ------------------------------------------------------------------------------------------------
+// loops with many iterations (17, 33, 40, 64, 100) over cheap bodies, applied to a state LARGER than the loop: as a sub-gate
+// of a wider Composite (every operand order), as a factor of a Kron, below C, inside another Loop
+
+fn long_loop(iters: usize, k: usize, rng: &mut SplitMix64) -> String
+{
+    let a = fbits(0.05 + 0.4 * rng.unit());
+    match k
+    {
+        1 => format!("Loop ll{} {} lb1 1 2 T 1 0 RY {} 1 0", iters, iters, a),
+        2 => format!("Loop ll{} {} lb2 2 3 H 1 0 CX 2 1 0 RX {} 1 1", iters, iters, a),
+        _ => format!("Loop ll{} {} lb3 3 3 CCX 3 2 0 1 CRY {} 2 0 2 V 1 1", iters, iters, a),
+    }
+}
+
+fn long_loop_terms(rng: &mut SplitMix64) -> Vec<String>
+{
+    let mut v = vec![];
+    let counts: &[usize] = if thorough() { &[16, 17, 31, 32, 33, 40, 64, 65, 100, 128, 255] } else { &[17, 33, 40, 64, 100] };
+    for &n in counts
+    {
+        v.push(long_loop(n, 1, rng));
+        v.push(long_loop(n, 2, rng));
+        // one-qubit loop on each qubit of a 3-qubit composite (block-wise route: blocks larger than the loop)
+        for b in 0..3 { v.push(format!("Comp w 3 2 {} 1 {} {} 1 {}", skew1(rng), (b + 1) % 3, long_loop(n, 1, rng), b)); }
+        // two-qubit loop on every ordered pair of 3 qubits, and on some pairs of 4
+        for bits in selections(3, 2) { v.push(format!("Comp w 3 2 {} 1 2 {} 2 {}", skew1(rng), long_loop(n, 2, rng), join(&bits))); }
+        for bits in [[0usize, 1], [1, 2], [3, 0], [2, 3]].iter() { v.push(format!("Comp w 4 2 {} 2 {} CX 2 0 3", long_loop(n, 2, rng), join(&bits[..]))); }
+        v.push(format!("Comp w 4 1 {} 3 0 1 2", long_loop(n, 3, rng)));
+        v.push(format!("Comp w 4 1 {} 3 3 1 0", long_loop(n, 3, rng)));
+        // factor of a Kron, below C, inside a Loop
+        v.push(format!("Kron {} H", long_loop(n, 2, rng)));
+        v.push(format!("Kron V {}", long_loop(n, 1, rng)));
+        v.push(format!("Kron {} {}", long_loop(n, 1, rng), long_loop(n, 1, rng)));
+        v.push(format!("C {}", long_loop(n, 2, rng)));
+        v.push(format!("C Kron {} RX {}", long_loop(n, 1, rng), fbits(0.7)));
+        v.push(format!("Comp w 3 1 C {} 2 2 0", long_loop(n, 1, rng)));
+        v.push(format!("Comp w 3 1 Kron {} H 2 1 2", long_loop(n, 1, rng)));
+        v.push(format!("Loop lo 2 bo 3 2 {} 2 2 0 H 1 1", long_loop(n, 2, rng)));
+    }
+    v
+}
+
+// ------------------------------------------------------------------------------------------------
+// "wide register" stream: Composites on 17 / 18 qubits made of basis-permuting gates, observed on basis vectors.
+// A placement with an operand >= 16 follows a placement on low qubits whose operand list agrees with it when every index
+// is packed into 4 bits ([a, 16+x] ~ [a+1, x]; [a, 16+x, c] ~ [a+1, x, c]; [a, b, 16+y] ~ [a, b+1, y]).
+//
+// Request `basis <route> <n> <index>*m <term>`: route `v` = Gate::apply on the state vector |index>, `m` = Gate::apply_mat
+// on the 2^n x 1 matrix; answer `ok <index>*m` (the basis state each input is mapped to) or `mixed` / `panic`.
+
+fn basis_image(g: &gate::Dyn, route: &str, n: usize, idx: usize) -> Option<usize>
+{
+    let one = Cplx::new(1.0, 0.0);
+    let zero = Cplx::new(0.0, 0.0);
+    let v: Vec<Cplx> = if route == "v"
+    {
+        let mut a = ndarray::Array1::from_elem(1usize << n, zero);
+        a[idx] = one;
+        g.apply(&mut a);
+        a.to_vec()
+    }
+    else
+    {
+        let mut a = ndarray::Array2::from_elem((1usize << n, 1), zero);
+        a[[idx, 0]] = one;
+        g.apply_mat(&mut a);
+        a.iter().cloned().collect()
+    };
+    let mut found = None;
+    for (i, c) in v.iter().enumerate()
+    {
+        if *c == zero { continue; }
+        if *c != one || found.is_some() { return None; }
+        found = Some(i);
+    }
+    found
+}
+
+fn wide_register_stream(out: &mut Out, rng: &mut SplitMix64)
+{
+    let ncases = if thorough() { 96 } else { 32 };
+    for case in 0..ncases
+    {
+        let n = 17 + (case % 2);
+        let hi = |x: usize| 16 + (x % (n - 16));          // an operand >= 16
+        let mut ops: Vec<String> = vec![];
+        let rounds = 2 + rng.below(2) as usize;
+        for _ in 0..rounds
+        {
+            let x = rng.below((n - 16) as u64) as usize;  // high operand 16 + x
+            match rng.below(6)
+            {
+                // two operands: [a+1, x] then [a, 16+x]
+                0 | 1 => {
+                    let g = if rng.coin() { "CX" } else { "Swap" };
+                    let mut a = rng.below(14) as usize;
+                    if a + 1 == x { a += 1; }
+                    ops.push(format!("{} 2 {} {}", g, a + 1, x));
+                    ops.push(format!("{} 2 {} {}", g, a, 16 + x));
+                },
+                // the other way round: high placement first
+                2 => {
+                    let mut a = rng.below(14) as usize;
+                    if a + 1 == x { a += 1; }
+                    ops.push(format!("CX 2 {} {}", a, 16 + x));
+                    ops.push(format!("CX 2 {} {}", a + 1, x));
+                },
+                // three operands, the high one in the middle: [a+1, x, c] then [a, 16+x, c]
+                3 => {
+                    let a = 2 + rng.below(10) as usize;
+                    let c = a + 3;
+                    ops.push(format!("CCX 3 {} {} {}", a + 1, x, c));
+                    ops.push(format!("CCX 3 {} {} {}", a, 16 + x, c));
+                },
+                // three operands, the high one last: [a, b+1, y] then [a, b, 16+y]
+                4 => {
+                    let a = 3 + rng.below(5) as usize;
+                    let b = a + 2 + rng.below(4) as usize;
+                    ops.push(format!("CCX 3 {} {} {}", a, b + 1, x));
+                    ops.push(format!("CCX 3 {} {} {}", a, b, 16 + x));
+                },
+                // a composite sub-gate and a Kron on colliding lists
+                _ => {
+                    let a = 2 + rng.below(10) as usize;
+                    ops.push(format!("Kron X CX 3 {} {} {}", a + 1, hi(x) - 16, a + 4));
+                    ops.push(format!("Comp in 3 2 CX 2 0 1 CX 2 1 2 3 {} {} {}", a, hi(x), a + 4));
+                }
+            }
+            // single-qubit gates (block-wise route) and a non-colliding placement in between rounds
+            ops.push(format!("X 1 {}", rng.below(n as u64)));
+            if rng.coin() { let b = pick_bits(n, 2, rng); ops.push(format!("CX 2 {}", join(&b))); }
+        }
+        let term = format!("Comp wide{} {} {} {}", case, n, ops.len(), ops.join(" "));
+        let route = if case % 4 == 3 { "m" } else { "v" };
+        let mut inputs: Vec<usize> = vec![(1usize << n) - 1];
+        for _ in 0..2 { inputs.push((rng.next() as usize) & ((1usize << n) - 1) | (1usize << rng.below(n as u64))); }
+        let (t, r, ins) = (term.clone(), route.to_string(), inputs.clone());
+        let ans = catch(move || {
+            let g = gate::parse_str(&t);
+            ins.iter().map(|&i| basis_image(&g, &r, n, i)).collect::<Vec<_>>()
+        });
+        let text = match ans
+        {
+            None => "panic".to_string(),
+            Some(v) => if v.iter().any(|x| x.is_none()) { "mixed".to_string() } else { format!("ok {}", join(&v.iter().map(|x| x.unwrap()).collect::<Vec<_>>())) }
+        };
+        out.case(&format!("basis {} {} {} {}", route, n, join(&inputs), term), &text);
+    }
+}
+
+// ------------------------------------------------------------------------------------------------
 // "layout" stream: apply_mat / apply_mat_slice on one logical matrix held in different memory layouts
 
 type Cplx = num_complex::Complex64;
@@ -473,6 +626,18 @@ fn layout_stream(out: &mut Out, rng: &mut SplitMix64)
         terms.push((gate::gen_term(k, 2, rng), k));
     }
     let shapes: &[(usize, usize)] = if thorough() { &[(1, 1), (1, 2), (1, 3), (2, 2), (2, 3), (4, 5), (1, 4)] } else { &[(1, 2), (1, 3), (2, 3), (2, 2)] };
+    // loops with many iterations: the matrix has 2 or 4 times as many rows as the loop (or its host) needs
+    for t in long_loop_terms(rng).iter()
+    {
+        let nb = gate::parse_str(t).nr_affected_bits();
+        for (mult, cols) in [(2usize, 3usize), (1, 2), (4, 2)].iter()
+        {
+            let rows = (1usize << nb) * mult;
+            if rows * cols > 100 { continue; }
+            let data: Vec<Cplx> = (0..rows * cols).map(|_| Cplx::new(rng.range(-64, 64) as f64 / 32.0, rng.range(-64, 64) as f64 / 32.0)).collect();
+            for layout in ["rm", "cm", "vsr"].iter() { emit_layout(out, layout, t, rows, *cols, &data); }
+        }
+    }
     for (term, nb) in terms.iter()
     {
         for (si, (mult, cols)) in shapes.iter().enumerate()
